@@ -637,6 +637,8 @@ class Robust:
                     sig = am.group(1)
                     fm = re.search(r"(\w+)\s*\(", sig)
                     fn = fm.group(1) if fm else sig.split()[-1]
+                    # two assertions of one function are two findings: a slug of the expression tells them apart
+                    fn += ":" + re.sub(r"[^A-Za-z0-9_]+", "-", am.group(2)).strip("-")[:40]
                 return "assert:%s" % fn
             # release build: no report; a deep / long input that kills the process is taken for the stack overflow
             return "stack-overflow:%s:?" % shape if shape else "crash:%s" % entry
@@ -648,15 +650,24 @@ class Robust:
             for fn in fr:
                 if not fn.startswith(generic) and fn != "?":
                     return "leak:%s" % fn
-            return "leak:%s" % fr[0]
+            return "leak:%s" % (fr[0] if fr[0] != "?" else "?:" + entry)
         bang = re.findall(r"!([a-z-]+)", out)
+        first = bang[0] if bang else "?"
         what = entry
-        if entry == "data" and len(f) > 5:
+        if first == "log-location-left":
+            # which stack was left non-empty names the call site family (schema node: path predicates; path: schema parsers)
+            lm = re.search(r"!log-location-left\(schema=(\d+),data=(\d+),path=(\d+),input=(\d+)\)", out)
+            what = "+".join(n for n, v in zip(("schema", "data", "path", "input"), lm.groups()) if v != "0") if lm else entry
+        elif first == "no-error-record":
+            rcm = re.search(r"rc=(\d+)", out)
+            xmlish = entry in ("yin",) or (entry in ("data", "op") and len(f) > 2 and f[2] == "x")
+            what = "%s-rc%s" % ("xml" if xmlish else ("json" if entry in ("data", "op") else entry), rcm.group(1) if rcm else "?")
+        elif entry == "data" and len(f) > 5:
             # the error paths of the two data parsers differ with the format and with multi-error validation
             what = "data-%s%s" % ("xml" if f[2] == "x" else "json", "-multi" if (int(f[4], 0) & VAL_MULTI) else "")
         elif entry == "op" and len(f) > 4:
             what = "op-%s-%s" % (f[2], f[3])
-        return "post:%s:%s" % (bang[0] if bang else "?", what)
+        return "post:%s:%s" % (first, what)
 
     def judge(self, line, out):
         err = getattr(self, "last_err", "")
